@@ -54,6 +54,8 @@ pub fn gen_case(sub: u64) -> EncCase {
     let mut text = String::new();
     if rng.chance(1, 40) {
         text.push('\u{feff}'); // content that itself starts with U+FEFF
+    } else if rng.chance(1, 40) {
+        text.push('\0'); // content whose first character is U+0000 (FF FE 00 00 looks like a UTF-32 mark)
     }
     for _ in 0..nl {
         for w in 0..rng.below(4) {
